@@ -29,6 +29,8 @@ def run(chk, tier):
     fo = Folder(P)
     for r in (r_enums, r_weekday, r_month, r_conversions, r_names, r_set, r_iter, r_whole_input, r_from_iter):
         chk.guarded(r, P, fo)
+    from props import c13
+    chk.guarded(c13.r_long_names, P, tier)      # Month / Weekday FromStr read their long names through these two scanners
     chk.assume("finite maps are obtained by folding the def-use terms of the function bodies over the finite argument domain; "
                "std integer helpers (trailing_zeros, leading_zeros, count_ones) are modelled")
     return {
